@@ -49,11 +49,13 @@ Inductive cl_out :=
 | CoExit (t : N).
 
 (* steps of the client transactions (client/transaction.go) *)
-Inductive ct_state := CtNone | CtAwaitPuback | CtAwaitPubrec | CtAwaitPubcomp | CtAwaitDisconnect | CtAwaitPingresp.
+Inductive ct_state := CtNone | CtAwaitPuback | CtAwaitPubrec | CtAwaitPubcomp | CtAwaitDisconnect | CtAwaitPingresp
+                  | CtSleeping.   (* sleepTransaction: asleep, waiting for the wake-up timer *)
 Definition ct_state_eqb (a b : ct_state) : bool :=
   match a, b with
   | CtNone, CtNone | CtAwaitPuback, CtAwaitPuback | CtAwaitPubrec, CtAwaitPubrec
-  | CtAwaitPubcomp, CtAwaitPubcomp | CtAwaitDisconnect, CtAwaitDisconnect | CtAwaitPingresp, CtAwaitPingresp => true
+  | CtAwaitPubcomp, CtAwaitPubcomp | CtAwaitDisconnect, CtAwaitDisconnect | CtAwaitPingresp, CtAwaitPingresp
+  | CtSleeping, CtSleeping => true
   | _, _ => false
   end.
 
